@@ -668,6 +668,8 @@ func init() {
 		Rules: []RuleDef{
 			{Name: "MERGE-STEP", What: "Adjacent and Compressor (splice form or accumulate form, recognised by roles, not names): the merge test compares the accumulated chunk's End with the current Begin; a merge keeps the accumulated Begin and the larger End (compared as whole virtual offsets), removes exactly one element, writes nothing else; Squash = {first Begin, running maximum of End}; Identity returns its argument", Floor: 10, Run: ruleChunkMergeStep},
 			{Name: "NEAR-CMP", What: "the Compressor's threshold is only ever an operand of a comparison: offset + near overflows for thresholds near MaxInt64 and such a Compressor merges nothing (added for a defect of the unchanged tree)", Floor: 1, Run: ruleNearCmp},
+			{Name: "STRATEGY-BIND", What: "the exported strategies Identity, Adjacent and Squash are initialised with the functions identity, adjacent and squash that MERGE-STEP examines – not with another value of the same type (added after eighth-round seed C17-h: Adjacent bound to CompressorStrategy(0))", Floor: 3, Run: ruleStrategyBind},
+			{Name: "BIT-VOFFSET", What: "every vOffset copy computes File<<16|Block over the whole 48+16 bits (bit domain; shared with C13/C15; under C17 since eighth-round seed C17-g: a mask applied after the shift cuts the file offset to 32 bits and the End comparisons of the strategies go wrong from 4 GiB on)", Floor: 6, Run: ruleVOffset},
 			{Name: "SORTED-PRE", What: "every application of a merge strategy is to a chunk list sorted by begin offset", Floor: 5, Run: ruleSortedPre},
 			{Name: "CHUNKS-FRESH", What: "the list a Chunks method sorts and merges in place is built in that call, never an alias of the index's storage (added after sixth-round seed C17-f)", Floor: 2, Run: ruleChunksFresh},
 		},
